@@ -19,7 +19,8 @@ RULE = (
     'the transmissivity ceiling, cells <= 60 mm, ascending and descending, '
     'refined. Oracle: t[i]-t[i-1] equals an independent quadrature of '
     'Sy/(-ET - curvature*T) with all knots as break points and T taken from '
-    'the closed form (rtol 1e-4, DESIGN 3.7); time strictly increases as the '
+    'the closed form (rtol 1e-6 since the code integrates knot by knot; was '
+    '1e-4 before that repair, DESIGN 3.7); time strictly increases as the '
     'level falls; differences at shared levels invariant under refinement '
     'and reversal; with curvature 0, ET*(t[i]-t[j]) = -(W[i]-W[j]) with W '
     'from compute_rise_curve; mean = requested mean. CLI level (part cli): '
@@ -135,7 +136,7 @@ def check(case):
     refs = np.array(refs)
     scale = np.abs(refs).sum() + 1e-12
     dt = np.diff(t)
-    bad = np.nonzero(np.abs(dt - refs) > 1e-4 * np.abs(refs) + 1e-7 * scale)[0]
+    bad = np.nonzero(np.abs(dt - refs) > 1e-6 * np.abs(refs) + 1e-8 * scale)[0]
     if len(bad):
         i = int(bad[0])
         raise Violation(
@@ -186,3 +187,203 @@ PARTS = [
          budget={'quick': 60, 'thorough': 1500},
          describe='simulate_recession.compute_recession_curve'),
 ]
+
+
+# ---------------------------------------------------------------- CLI level
+
+import yaml  # noqa: E402
+
+from vfw import gen_truth, model_master  # noqa: E402
+from vfw.core import Reject  # noqa: E402
+from vfw.pipeline import Workflow  # noqa: E402
+from vfw.props.C06 import read_curve  # noqa: E402
+from vfw.props.C14 import reference_integral  # noqa: E402
+
+
+@st.composite
+def cli_cases(draw, tier):
+    record = draw(gen_truth.truth_records(
+        noise=draw(st.booleans()), min_storms=4, max_storms=8,
+        et_varying=True))
+    record['grid'] = draw(st.sampled_from(['1.0', '2.0', '5.0', '2.5']))
+    levels = [v for _, v in record['wl']]
+    lo, hi = min(levels), max(levels)
+    kind = draw(st.sampled_from(['spline', 'spline', 'peatclsm']))
+    if kind == 'spline':
+        sy = draw(gen_params.spline_sy(min_gap=5.0, positive=True))
+        z = sy['zeta_knots_mm']
+        shift = (lo - 10.0) - z[0]
+        sy['zeta_knots_mm'] = [round(v + shift, 4) for v in z]
+        T = draw(gen_params.spline_T(min_gap=5.0, min_n=2, max_n=5))
+        zt = T['zeta_knots_mm']
+        shift_t = (hi + draw(st.floats(1.0, 50.0))) - zt[-1]
+        T['zeta_knots_mm'] = [round(v + shift_t, 4) for v in zt]
+    else:
+        sy = draw(gen_params.peatclsm_sy())
+        T = draw(gen_params.peatclsm_T())
+        T['zeta_max_cm'] = round(hi / 10 + draw(st.floats(0.5, 30.0)), 3)
+    record['parameters'] = {'specific_yield': sy, 'transmissivity': T}
+    record['curvature'] = draw(st.sampled_from(
+        ['0', '0', '0.0', '2.36', '0.5', '10']))
+    return record
+
+
+def expected_et_mm_d(connection):
+    """Time average of ET over all steps [t, t+step) lying inside the
+    recession intervals that make up the master curve."""
+    values = []
+    for start, thru in connection.execute(
+            """SELECT zi.start_epoch, zi.thru_epoch
+               FROM recession_interval AS ri
+               JOIN zeta_interval AS zi ON zi.start_epoch = ri.start_epoch
+               WHERE zi.interval_type = 'interstorm'"""):
+        values.extend(v for (v,) in connection.execute(
+            'SELECT evapotranspiration_mm_h FROM evapotranspiration '
+            'WHERE from_epoch >= ? AND thru_epoch <= ?', (start, thru)))
+    first_steps = [v for (v,) in connection.execute(
+        """SELECT e.evapotranspiration_mm_h FROM evapotranspiration AS e
+           JOIN recession_interval AS ri ON e.from_epoch = ri.start_epoch""")]
+    return (sum(values) / len(values) * 24, values,
+            sum(first_steps) / len(first_steps) * 24)
+
+
+def check_cli(case):
+    h = float(case['grid'])
+    params = case['parameters']
+    curvature = float(case['curvature'])
+    with Workflow(case) as wf:
+        guarded(wf.load)
+        guarded(wf.classify)
+        guarded(wf.zeta_grid, case['grid'])
+        connection = wf.connect()
+        try:
+            recs = model_master.recession_series(connection)
+            table, _ = model_master.crossing_table(recs, h)
+            ok = model_master.main_body(table)[2]
+        finally:
+            connection.close()
+        if not ok:
+            raise Reject('recession main body ambiguous')
+        guarded(wf.recession)
+        guarded(wf.set_curvature, case['curvature'])
+        connection = wf.connect()
+        try:
+            _, per_level = read_curve(connection, 'recession')
+            et_mm_d, et_values, et_first = expected_et_mm_d(connection)
+        finally:
+            connection.close()
+        if et_mm_d == 0 and curvature == 0:
+            raise Reject('ET and curvature both zero')
+        ppath = wf.path('parameters.yml')
+        with open(ppath, 'w') as f:
+            yaml.safe_dump(params, f)
+        table_text = guarded(wf.simulate, 'recession', ppath, False)
+        vector_text = guarded(wf.simulate, 'recession', ppath, True)
+    measured = {k: sum(r.values()) / len(r) / 86400.0
+                for k, r in per_level.items()}
+    ks = sorted(measured, reverse=True)
+    if len(ks) < 2:
+        raise Reject('fewer than two levels')
+    doc = yaml.safe_load(table_text)
+    if not (isinstance(doc, list) and doc and isinstance(doc[0], list)
+            and len(doc[0]) == 3 and all(isinstance(x, str) for x in doc[0])):
+        raise Violation('recession-table-header-missing', repr(doc)[:200])
+    rows = doc[1:]
+    if len(rows) != len(ks):
+        raise Violation('recession-table-row-count', repr(len(rows)))
+    scale = max(abs(v) for v in measured.values()) + 1e-6
+    for row, k in zip(rows, ks):
+        if abs(row[0] - k * h) > 1e-9 * max(abs(k * h), 1.0):
+            if abs(row[0] * 10 - k * h) <= 1e-9 * max(abs(k * h), 1.0):
+                raise Violation(
+                    'recession-table-level-column-not-mm',
+                    'column headed {!r} holds {!r} for the level {!r} '
+                    'mm'.format(doc[0][0], row[0], k * h))
+            raise Violation(
+                'recession-table-level-column',
+                'row level {!r}, expected {!r} mm (highest first)'.format(
+                    row[0], k * h))
+        if abs(row[1] - measured[k]) > 1e-9 * scale + 1e-12:
+            raise Violation('recession-table-measured-column',
+                            'level {}: {!r} vs {!r}'.format(
+                                k, row[1], measured[k]))
+    sim = [row[2] for row in rows]
+    meas = [row[1] for row in rows]
+    sscale = scale + max(abs(v) for v in sim)
+    if abs(sum(sim) / len(sim) - sum(meas) / len(meas)) > 1e-9 * sscale:
+        raise Violation('recession-table-mean-not-measured-mean', '')
+    vector = yaml.safe_load(vector_text)
+    if vector != sim:
+        raise Violation('recession-observations-differ-from-table',
+                        repr((vector[:3], sim[:3])))
+    # the water balance, with the ET the statement prescribes
+    sy_mod = tree.mod('specific_yield')
+    sy = guarded(sy_mod.create_specific_yield_function,
+                 copy.deepcopy(params['specific_yield']))
+    sy_p, T_p = params['specific_yield'], params['transmissivity']
+    knots = set()
+    if sy_p['type'] == 'spline':
+        knots.update(sy_p['zeta_knots_mm'])
+    else:
+        knots.update(float(v) for v in sy.zeta_knots_mm)
+    if T_p['type'] == 'spline':
+        knots.update(T_p['zeta_knots_mm'])
+    knots = sorted(knots)
+    labels = {sy_p['type'], 'curvature-zero' if curvature == 0
+              else 'curvature-positive'}
+    varying = len(set(et_values)) > 1
+    if curvature == 0:
+        z_hi, z_lo = ks[0] * h, ks[-1] * h
+        storage, _ = reference_integral(sy, z_lo, z_hi, sorted(
+            k for k in knots))
+        elapsed = sim[-1] - sim[0]
+        dense = np.linspace(z_lo, z_hi, 257)
+        sy_positive = bool((np.asarray(sy(dense), dtype=float) > 0).all())
+        if sy_positive and not elapsed > 0:
+            raise Violation('recession-time-not-increasing-as-level-falls',
+                            repr(elapsed))
+        if not sy_positive:
+            labels.add('sy-dips-negative')
+        if abs(storage) < 1e-6 or elapsed == 0:
+            raise Reject('no net storage change over the curve')
+        et_used = storage / elapsed
+        if abs(et_used - et_mm_d) > 1e-4 * et_mm_d + 1e-4 * abs(
+                et_mm_d / storage):
+            near_first = abs(et_used - et_first) <= 1e-4 * max(et_first, 1e-9)
+            raise Violation(
+                'recession-et-not-average-over-interval-steps'
+                + (':first-step-only' if near_first else ''),
+                'ET recovered from the output {!r} mm/d, average over the '
+                'steps of the recession intervals {!r} mm/d (first steps '
+                'only: {!r})'.format(et_used, et_mm_d, et_first))
+    else:
+        curv_km = curvature * 1e-3
+
+        def integrand(z):
+            return float(sy(z)) / (-et_mm_d - curv_km * reference_T(T_p, z))
+
+        for (ka, ta), (kb, tb) in zip(zip(ks[:-1], sim[:-1]),
+                                      zip(ks[1:], sim[1:])):
+            a, b = ka * h, kb * h  # a > b (descending)
+            pts = [b] + [k for k in knots if b < k < a] + [a]
+            total = 0.0
+            for p, q in zip(pts[:-1], pts[1:]):
+                total += scipy.integrate.quad(
+                    integrand, p, q, epsabs=0, epsrel=1e-11, limit=200)[0]
+            # integral from b up to a of f (negative) = t(a) - t(b)
+            want = -total  # t(b) - t(a) > 0
+            if abs((tb - ta) - want) > 1e-4 * abs(want) + 1e-9 * sscale:
+                raise Violation(
+                    'recession-table-not-water-balance',
+                    'levels {}..{}: {!r} vs {!r} (ET {!r}, curvature '
+                    '{!r})'.format(ka, kb, tb - ta, want, et_mm_d, curv_km))
+    if varying:
+        labels.add('et-varies-over-intervals')
+        labels.add('nontrivial')
+    return labels
+
+
+PARTS.append(
+    Part('cli', check_cli, strategy=lambda tier: cli_cases(tier),
+         budget={'quick': 15, 'thorough': 200},
+         describe='`spowtd simulate recession` table, ET used, units'))
